@@ -474,8 +474,10 @@ func c13Program(r *RNG) (GoProg, map[string]bool) {
 				w("\tbs[0] = bs[0] + 1\n\tprintln(\"copy\", bs[0], %s[0], string(bs) == %s)\n", a, a)
 			}
 			w("\tprintln(\"back\", string(bs))\n\tb2 := append([]byte(\"x\"), %s...)\n\tvar b3 []byte\n\tb3 = append(b3, %s...)\n\tprintln(\"app\", len(b2), string(b2), len(b3), string(b3) == %s)\n}\n", a, a, a)
+			w("if true {\n\tcb := make([]byte, len(%s)+1)\n\tcn := copy(cb, %s)\n\tprintln(\"copy\", cn, string(cb[:cn]) == %s, cb[len(cb)-1])\n}\n", a, a, a)
 			feat["to-bytes"] = true
 			feat["append-string-spread"] = true
+			feat["copy-from-string"] = true
 			if r.Bool() {
 				w("if true {\n\trs := []rune(%s)\n\tprintln(\"runes\", len(rs), string(rs) == %s, string(rs))\n\tfor i, x := range rs {\n\t\tprintln(i, x)\n\t}\n}\n", a, a)
 				feat["to-runes"] = true
